@@ -21,7 +21,7 @@ PROP = "C20"
 TIERS = {"quick": 30000, "thorough": 1500000}
 WALL_CAP = {"quick": 900, "thorough": 6 * 3600}
 SHRINK_BUDGET = 250
-STALL_SECONDS = 180
+STALL_SECONDS = 120
 
 COMPONENTS = {
     "real": ["biotite.application.application (Application, requires_state, AppState)",
